@@ -556,7 +556,7 @@ def ipgen_part(ctx):
         unit_name=lambda u: u['ctor'] + (' ; ' + ' ; '.join(u['ops']) if u['ops'] else ' (constructor only, any mask length)'),
         unit_desc='pool = symbolic subnet; operations with symbolic masks / networks; set equalities over all 2^32 addresses via a free witness address',
         replay_fn=ipgen_native_replay,
-        bounds='constructors new_sub / new_sub_no_ends for every pool (address 32-bit, mask length 0..=32 symbolic); every sequence of 3 (quick) / 4 (thorough) operations over fetch_ip, '
+        bounds='constructors new_sub / new_sub_no_ends for every pool (address 32-bit, mask length 0..=32 symbolic); every sequence of 2 and (quick: those with <= 1 block and <= 1 fetch_net; thorough: all) 3 operations over fetch_ip, '
                'fetch_net(mask length 26..=32 symbolic), block_subnet(symbolic network /24../32), return_subnet(of something held) on pools /22../32; witness address symbolic',
         outside='return of networks that are not held (the property only speaks about returns of held addresses); pools larger than /22 for operation sequences; '
                 'the DHCP message exchange (async transport) - only the generator, which every DHCP lease goes through under the server\'s write lock, is decided',
